@@ -176,26 +176,31 @@ def bwtDecode (buf : Array UInt8) (ptr : Nat) : Array UInt8 :=
 /-- rotation `k` of a list. -/
 def rotate (xs : List UInt8) (k : Nat) : List UInt8 := xs.drop k ++ xs.take k
 
-/-- lexicographic order on byte lists. -/
-def lexLe : List UInt8 → List UInt8 → Bool
-  | [], _ => true
-  | _ :: _, [] => false
-  | a :: as, b :: bs => if a < b then true else if b < a then false else lexLe as bs
+/-- compare rotations `i` and `j` of `a` byte by byte (at most `fuel` bytes):
+    `lt`, `gt`, or `eq` when the rotations are equal. -/
+def cmpRot (a : Array UInt8) (n : Nat) : Nat → Nat → Nat → Ordering
+  | 0, _, _ => .eq
+  | fuel+1, i, j =>
+    let x := a.getD (i % n) 0
+    let y := a.getD (j % n) 0
+    if x < y then .lt else if y < x then .gt else cmpRot a n fuel (i + 1) (j + 1)
 
-/-- insertion sort of rotation indices by rotation; equal rotations (periodic
-    input) are ordered by descending index, which is what a suffix sort of the
-    doubled string gives (the shorter of two equal-prefixed suffixes is smaller). -/
-def insertRot (xs : List UInt8) (k : Nat) : List Nat → List Nat
-  | [] => [k]
-  | j :: js => if lexLe (rotate xs k) (rotate xs j) ∧ (rotate xs k ≠ rotate xs j ∨ k ≥ j) then k :: j :: js
-               else j :: insertRot xs k js
+/-- order of rotation indices: by rotation; equal rotations (periodic input)
+    by descending index, which is what a suffix sort of the doubled string gives
+    (the shorter of two equal-prefixed suffixes is smaller). -/
+def rotLe (a : Array UInt8) (i j : Nat) : Bool :=
+  match cmpRot a a.size a.size i j with
+  | .lt => true
+  | .gt => false
+  | .eq => decide (i ≥ j)
 
 /-- specification of the forward transform: last column of the sorted
     rotations and the row of the original string. -/
 def bwtSpec (xs : List UInt8) : List UInt8 × Nat :=
+  let a := xs.toArray
   let n := xs.length
-  let order := (List.range n).foldr (fun k acc => insertRot xs k acc) []
-  let last := order.map (fun k => (rotate xs k).getLastD 0)
+  let order := (List.range n).mergeSort (fun i j => rotLe a i j)
+  let last := order.map (fun k => a.getD ((k + n - 1) % n) 0)
   (last, (order.findIdx? (· == 0)).getD 0)
 
 /-! ### CRC -/
@@ -210,6 +215,27 @@ def crcByte (crc : Nat) (b : UInt8) : Nat :=
 
 /-- bzip2 block checksum of a byte string. -/
 def blockCRC (bs : List UInt8) : Nat := (bs.foldl crcByte 0xffffffff) ^^^ 0xffffffff
+
+/-- reverse the 32 bits of `v`. -/
+def rev32 (v : Nat) : Nat := Bits.toNat (Bits.ofNat v 32).reverse
+
+def revByte8 (b : UInt8) : UInt8 := UInt8.ofNat (Bits.toNat (Bits.ofNat b.toNat 8).reverse)
+
+/-- one byte of the reflected IEEE CRC-32 update (`hash/crc32`), on the raw register. -/
+def crc32RawByte (crc : Nat) (b : UInt8) : Nat :=
+  let rec go (k : Nat) (c : Nat) : Nat :=
+    match k with
+    | 0 => c
+    | k+1 => go k (if c % 2 = 1 then (c / 2) ^^^ 0xEDB88320 else c / 2)
+  go 8 (crc ^^^ b.toNat)
+
+/-- `crc.update` as the Go code computes it: bit-reverse the value, run the
+    standard reflected CRC-32 (`crc32.Update` complements on entry and exit) over
+    the bit-reversed bytes, reverse back. -/
+def crcUpdateGo (val : Nat) (bs : List UInt8) : Nat :=
+  let c0 := rev32 val ^^^ 0xffffffff
+  let c1 := (bs.map revByte8).foldl crc32RawByte c0
+  rev32 (c1 ^^^ 0xffffffff)
 
 /-- `endCRC = (endCRC<<1 | endCRC>>31) ^ blkCRC`. -/
 def combineCRC (endCRC blk : Nat) : Nat := ((endCRC * 2) % 2 ^ 32 + endCRC / 2 ^ 31) ^^^ blk
